@@ -9,7 +9,7 @@ from . import refike as R
 from .childcheck import newsa_index, PROTO_NUM
 from .kernel import _addr_raw
 
-KINDS_C11 = ('invalid_ke_never_offered', 'foreign_child_response', 'foreign_init_response', 'multi_proposal_request', 'foreign_ike_rekey_response')
+KINDS_C11 = ('invalid_ke_never_offered', 'foreign_child_response', 'foreign_init_response', 'multi_proposal_request', 'foreign_ike_rekey_response', 'ke_unimplemented_group')
 KINDS_C10 = ('bad_reply',)
 KINDS_C17 = ('auth_malformed',)
 KINDS_C14 = ('reuse_spi_request',)
@@ -336,6 +336,57 @@ def make(kind, seed, world, ip, tap, reach):
                                 f'proposal not drawn from its offer ({t["what"]})')
             return None
         return rule, verdict
+
+    # ------------------------------------------------------------------------------------------------------------
+    if kind == 'ke_unimplemented_group':
+        # an initiator that also knows DH groups this implementation does not have (curve25519 = 31, MODP-1024 = 2, MODP-1536 = 5, brainpool = 28),
+        # prefers one of them and guesses it for its KE payload, while its offer still shares a group with the responder: the answer is
+        # INVALID_KE_PAYLOAD naming the chosen common group (RFC 7296 1.2 / 3.4), for IKE_SA_INIT and for an IKE_SA rekey
+        p_hit = r0.choice([0.5, 1.0])
+        seen = set()
+
+        def rule(meta, data):
+            try:
+                h = R.dec_header(data)
+            except R.DecodeError:
+                return None
+            if h['R']:
+                return None
+            if h['exch'] == R.IKE_SA_INIT:
+                try:
+                    pls = [R.dec_payload(p) for p in R.dec_chain(data[28:], h['next'])]
+                except R.DecodeError:
+                    return None
+                s = None
+            elif h['exch'] == R.CREATE_CHILD_SA:
+                opened = ip.open(data)
+                if opened is None:
+                    return None
+                _, pls, s = opened
+            else:
+                return None
+            sa = next((p for p in pls if p['type'] == R.P_SA), None)
+            ke = next((p for p in pls if p['type'] == R.P_KE), None)
+            if sa is None or ke is None or not sa['proposals'] or sa['proposals'][0]['proto'] != R.PROTO_IKE:
+                return None
+            keyid = (meta['sender'], h['spi_i'], h['exch'])
+            r = random.Random(f'byz:{seed}:{meta["key"]}')
+            if keyid in seen or r.random() >= p_hit:
+                return None          # once per negotiation: the retry with the named group goes through untouched
+            seen.add(keyid)
+            g = r.choice([31, 31, 2, 5, 28])
+            for pr in sa['proposals']:
+                i = next((i for i, t in enumerate(pr['transforms']) if t['type'] == R.T_DH), len(pr['transforms']))
+                pr['transforms'].insert(i, {'type': R.T_DH, 'id': g, 'keylen': None, 'attrs': []})
+            ke['group'], ke['data'] = g, _rb(r, {31: 32, 2: 128, 5: 192, 28: 64}[g])
+            count('byz.' + kind)
+            if s is None:
+                new = R.encode({'spi_i': h['spi_i'], 'spi_r': h['spi_r'], 'exch': 34, 'I': True, 'R': False, 'id': h['id']}, pls)
+            else:
+                new = ip.seal(s, {'spi_i': h['spi_i'], 'spi_r': h['spi_r'], 'exch': h['exch'], 'I': h['I'], 'R': False, 'id': h['id']}, pls, _rb(r, 16))
+            return [(new, 0.0)]
+        rule.label = 'byz.' + kind
+        return rule, lambda w: None
 
     # ------------------------------------------------------------------------------------------------------------
     if kind == 'foreign_ike_rekey_response':
